@@ -58,6 +58,62 @@ def guard(f):
         return {"exc": type(e).__name__, "msg": str(e)[:120]}
 
 
+# ------------------------------------------------------------------ exact Gaussian rationals
+class CF:
+    """exact element of Q(i) (the Lean side runs the same model over GT.QI)"""
+    __slots__ = ("re", "im")
+
+    def __init__(self, re, im=0):
+        self.re, self.im = F(re), F(im)
+
+    @staticmethod
+    def of(x):
+        return x if isinstance(x, CF) else CF(x)
+
+    def __add__(self, o):
+        o = CF.of(o)
+        return CF(self.re + o.re, self.im + o.im)
+    __radd__ = __add__
+
+    def __neg__(self):
+        return CF(-self.re, -self.im)
+
+    def __sub__(self, o):
+        return self + (-CF.of(o))
+
+    def __rsub__(self, o):
+        return CF.of(o) - self
+
+    def __mul__(self, o):
+        o = CF.of(o)
+        return CF(self.re * o.re - self.im * o.im, self.re * o.im + self.im * o.re)
+    __rmul__ = __mul__
+
+    def __truediv__(self, o):
+        o = CF.of(o)
+        d = o.re * o.re + o.im * o.im
+        return self * CF(o.re / d, -o.im / d)
+
+    def __rtruediv__(self, o):
+        return CF.of(o) / self
+
+    def __eq__(self, o):
+        o = CF.of(o)
+        return self.re == o.re and self.im == o.im
+
+    def __ne__(self, o):
+        return not self == o
+
+    def __hash__(self):
+        return hash((self.re, self.im))
+
+    def __complex__(self):
+        return complex(float(self.re), float(self.im))
+
+    def __repr__(self):
+        return "CF(%s,%s)" % (self.re, self.im)
+
+
 # ------------------------------------------------------------------ exact matrices
 def fmul(A, B):
     return [[sum(A[i][k] * B[k][j] for k in range(len(B))) for j in range(len(B[0]))] for i in range(len(A))]
@@ -122,6 +178,15 @@ def gen_matrix(rng, n, ring="Q", kind=None):
     """random element of GL(n, Q) (or GL(n, Z)) whose float64 image is exact or nearly so"""
     if ring == "Z":
         return unimodular(rng, n)
+    if ring == "C":
+        # (real invertible) * (complex unipotent) * (Gaussian unit scalar): invertible, genuinely complex
+        G = gen_matrix(rng, n, "Q", kind)
+        U = [[CF(int(i == j)) for j in range(n)] for i in range(n)]
+        for i in range(n):
+            for j in range(i + 1, n):
+                U[i][j] = CF(0, F(rng.randint(-2, 2), rng.randint(1, 2)))
+        z = rng.choice([CF(1), CF(0, 1), CF(F(3, 5), F(4, 5)), CF(F(-5, 13), F(12, 13)), CF(0, -1)])
+        return [[z * x for x in r] for r in fmul(G, U)]
     kind = kind or rng.choice(["uni", "orth", "dyadic", "diag", "rat"])
     if kind == "uni":
         return unimodular(rng, n)
@@ -143,19 +208,47 @@ def gen_matrix(rng, n, ring="Q", kind=None):
     return Q.rinv(rng, n, 3, 3, F(1, 3))
 
 
+def enc1(x):
+    return Q.qs(x.re) + "|" + Q.qs(x.im) if isinstance(x, CF) else Q.qs(x)
+
+
+def dec1(x):
+    return CF(*map(F, x.split("|"))) if "|" in x else F(x)
+
+
 def enc(M):
-    return [[Q.qs(x) for x in r] for r in M]
+    return [[enc1(x) for x in r] for r in M]
 
 
 def dec(M):
-    return [[F(x) for x in r] for r in M]
+    return [[dec1(x) for x in r] for r in M]
 
 
 def tonp(M, ring="Q", cplx=False):
     if ring == "Z":
         return np.array([[int(F(x)) for x in r] for r in M], dtype=np.int64)
+    if ring == "C":
+        return np.array([[complex(CF.of(dec1(x))) for x in r] for r in M], dtype=complex)
     a = np.array([[float(F(x)) for x in r] for r in M], dtype=float)
     return a.astype(complex) if cplx else a
+
+
+def decm(a):
+    """driver output (nested lists of "p/q" or "re|im") -> numpy array"""
+    def go(x):
+        if isinstance(x, list):
+            return [go(y) for y in x]
+        if "|" in x:
+            re, im = x.split("|")
+            return complex(float(F(re)), float(F(im)))
+        return float(F(x))
+    out = go(a)
+    return np.array(out, dtype=complex if np.iscomplexobj(np.array(out)) else float)
+
+
+def asl(x, ring="Q"):
+    """implementation array -> nested list (complex kept for ring C)"""
+    return np.asarray(x, dtype=complex if ring == "C" else float).tolist()
 
 
 # ------------------------------------------------------------------ names and words
@@ -212,32 +305,118 @@ def all_words(alphabet, maxlen):
 
 
 # ------------------------------------------------------------------ representation specs
-def rand_spec(rng, ring=None, simple=None, n=None, names=None, reassign=True, kind=None):
-    ring = ring or rng.choice(["Q", "Q", "Q", "Z"])
+def int_matrix(rng, n, maxabs=3):
+    """integer matrix with non-zero determinant, in general not unimodular (e.g. [[2]])"""
+    while True:
+        M = [[F(rng.randint(-maxabs, maxabs)) for _ in range(n)] for _ in range(n)]
+        d = Q.det(M)
+        if d != 0 and (n > 2 or abs(d) != 1 or rng.random() < 0.3):
+            return M
+
+
+def mix_dtypes(rng, spec):
+    """give the assignments different numpy dtypes (the model runs over the common exact ring): integer matrices of
+    arbitrary non-zero determinant as int64 / int32 next to float64 ones (ring Q), real ones next to complex ones (ring C)"""
+    n, ring = spec["n"], spec["ring"]
+    if ring == "Q":
+        for h in spec["hist"]:
+            if rng.random() < 0.5:
+                h["m"] = enc(int_matrix(rng, n))
+                h["dt"] = rng.choice(["int64", "int32"])
+            else:
+                h["dt"] = "float64"
+    elif ring == "C":
+        for h in spec["hist"]:
+            if rng.random() < 0.5:
+                if rng.random() < 0.5:
+                    h["m"], h["dt"] = enc(int_matrix(rng, n)), rng.choice(["int64", "float64"])
+                else:
+                    h["m"], h["dt"] = enc(gen_matrix(rng, n, "Q")), "float64"
+            else:
+                h["dt"] = "complex128"
+    elif ring == "Z":
+        for h in spec["hist"]:
+            h["dt"] = rng.choice(["int64", "int64", "int32"])
+    return spec
+
+
+def rand_spec(rng, ring=None, simple=None, n=None, names=None, reassign=True, kind=None, dtmix=None):
+    ring = ring or rng.choice(["Q", "Q", "Q", "Z", "C"])
     simple = rng.random() < 0.7 if simple is None else simple
     n = n or rng.choice([1, 2, 2, 3, 3, 4, 5])
     names = names or rand_names(rng, simple)
+    # generators are assigned in random order, sometimes through their upper-case (inverse) name
     hist = [{"g": g, "m": enc(gen_matrix(rng, n, ring, kind)), "inv": True} for g in names]
     if reassign and rng.random() < 0.4:
         for _ in range(rng.randint(1, 3)):
             g = rng.choice(names)
             g = swapcase(g) if rng.random() < 0.4 else g        # assigning to the inverse letter re-assigns both
             hist.append({"g": g, "m": enc(gen_matrix(rng, n, ring, kind)), "inv": True})
-        rng.shuffle(hist)
-    return {"ring": ring, "n": n, "simple": simple, "hist": hist, "relations": []}
+    rng.shuffle(hist)
+    spec = {"ring": ring, "n": n, "simple": simple, "hist": hist, "relations": [],
+            "rel_mode": rng.choice(["ctor", "append", "append"])}
+    if dtmix if dtmix is not None else rng.random() < 0.4:
+        mix_dtypes(rng, spec)
+    return spec
+
+
+DTYPES = {"int64": np.int64, "int32": np.int32, "float64": np.float64, "complex128": np.complex128}
+
+
+def tonp_h(h, ring, cplx=False):
+    """the numpy matrix of one assignment, in the dtype the history prescribes"""
+    if "dt" not in h:
+        return tonp(h["m"], ring, cplx)
+    dt = h["dt"]
+    if dt in ("int64", "int32"):
+        return np.array([[int(CF.of(dec1(x)).re) for x in r] for r in h["m"]], dtype=DTYPES[dt])
+    a = np.array([[complex(CF.of(dec1(x))) for x in r] for r in h["m"]], dtype=complex)
+    return a if dt == "complex128" or cplx else a.real.astype(np.float64)
 
 
 def build_rep(spec, cls=None, cplx=False):
+    """the representation of a spec.  Relators are given to the constructor or appended afterwards
+    (`rep.relations.append`), and a representation without relators is built without the keyword: the harness
+    creates many representations per process, so state shared between objects shows up."""
     from geometry_tools import representation as R
     cls = cls or R.Representation
-    rep = cls(parse_simple=spec["simple"], relations=list(spec.get("relations", [])))
+    rels = list(spec.get("relations", []))
+    mode = spec.get("rel_mode", "ctor")
+    if rels and mode == "ctor":
+        rep = cls(parse_simple=spec["simple"], relations=rels)
+    else:
+        rep = cls(parse_simple=spec["simple"])
     for h in spec["hist"]:
-        M = tonp(h["m"], spec["ring"], cplx)
+        M = tonp_h(h, spec["ring"], cplx)
         if h.get("inv", True):
             rep[h["g"]] = M
         else:
             rep.set_generator(h["g"], M, compute_inverse=False)
+    if rels and mode != "ctor":
+        for r in rels:
+            rep.relations.append(r)
     return rep
+
+
+def no_int32(spec):
+    for h in spec["hist"]:
+        if h.get("dt") == "int32":
+            h["dt"] = "int64"
+    return spec
+
+
+def has_int(spec):
+    return spec["ring"] == "Z" or any(h.get("dt") in ("int32", "int64") for h in spec["hist"])
+
+
+def cap_len(spec, k):
+    """word-length cap that keeps exact integer products inside the integer dtype (numpy wraps silently on overflow)"""
+    dts = {h.get("dt") for h in spec["hist"]}
+    if "int32" in dts:
+        return min(k, 6)
+    if "int64" in dts or spec["ring"] == "Z":
+        return min(k, 12)
+    return k
 
 
 def spec_names(spec):
